@@ -74,14 +74,13 @@ def run(ctx):
     ctx.ob("C31.D2-remove-releases", cname(se, None, "releasing without a pending event is harmless"), ok, "" if ok else "double removal fails", where=where(se, se.node))
     # D3
     rs = rm.m("remove_suspender")
-    b = rs.node.body
-    b = [s for s in b if not (isinstance(s, ast.Expr) and isinstance(s.value, ast.Constant))]
-    ok = len(b) == 2 and isinstance(b[0], ast.If) and A.norm(b[0].test) == "suspender in self._suspenders" and [A.norm(x) for x in b[0].body] == ["suspender.remove()"] \
+    b = A.body(rs.node)
+    ok = len(b) == 2 and isinstance(b[0], ast.If) and A.norm(b[0].test) == "suspender in self._suspenders" and [A.norm(x) for x in A.body(b[0].body)] == ["suspender.remove()"] \
         and A.norm(b[1]) == "self._suspenders.discard(suspender)"
     ctx.ob("C31.D3-engine-side", cname(rs, None, "remove() only when installed; always discard (removing twice is harmless)"), ok,
            "" if ok else "remove_suspender changed", nontrivial=True, where=where(rs, rs.node))
     isp = rm.m("install_suspender")
-    b = [A.norm(s) for s in isp.node.body if not (isinstance(s, ast.Expr) and isinstance(s.value, ast.Constant))]
+    b = [A.norm(s) for s in A.body(isp.node)]
     ok = b == ["self._suspenders.add(suspender)", "suspender.install(self)"]
     ctx.ob("C31.D3-engine-side", cname(isp, None, "record, then install"), ok, "" if ok else f"{b}", where=where(isp, isp.node))
     cs = rm.m("clear_suspenders")
